@@ -398,4 +398,339 @@ theorem validateAssets_ok {p : List AssetParam} : ∀ {seen : List String},
 theorem htlcValidate_ok {p : HtlcParams} (h : htlcValidate p = .ok ()) : ∀ a ∈ p, AssetOk a :=
   validateAssets_ok h
 
+/-! ## checked integer operations -/
+
+theorem mulP_err {a b : Int} {e : Err} (h : mulP a b = .error e) : e = .panic .overflow := by
+  unfold mulP at h; split at h <;> simp_all
+theorem addP_err {a b : Int} {e : Err} (h : addP a b = .error e) : e = .panic .overflow := by
+  unfold addP at h; split at h <;> simp_all
+theorem subP_err {a b : Int} {e : Err} (h : subP a b = .error e) : e = .panic .overflow := by
+  unfold subP at h; split at h <;> simp_all
+theorem mulP_val {a b c : Int} (h : mulP a b = .ok c) : c = a * b := by
+  unfold mulP I256.mul at h; split at h
+  · cases h
+  · rename_i x hx; cases h; exact chkInt_some hx
+theorem addP_val {a b c : Int} (h : addP a b = .ok c) : c = a + b := by
+  unfold addP I256.add at h; split at h
+  · cases h
+  · rename_i x hx; cases h; exact chkInt_some hx
+theorem subP_val {a b c : Int} (h : subP a b = .ok c) : c = a - b := by
+  unfold subP I256.sub at h; split at h
+  · cases h
+  · rename_i x hx; cases h; exact chkInt_some hx
+theorem quoP_err {a b : Int} {e : Err} (h : quoP a b = .error e) : b = 0 := by
+  unfold quoP I256.quo at h
+  by_cases hb : b = 0
+  · exact hb
+  · simp [hb] at h
+
+theorem addP_ok {a b : Int} (h0 : 0 ≤ a + b) (h1 : a + b < (pow2_256 : Int)) : addP a b = .ok (a + b) := by
+  unfold addP I256.add; rw [chkInt_of_bound _ h0 h1]
+theorem mulP_ok {a b : Int} (h0 : 0 ≤ a * b) (h1 : a * b < (pow2_256 : Int)) : mulP a b = .ok (a * b) := by
+  unfold mulP I256.mul; rw [chkInt_of_bound _ h0 h1]
+
+/-! ## coinswap prices -/
+
+theorem deltaFeeInt_ok (fee : Dec) (h0 : 0 < fee.raw) (h1 : fee.raw < precision) :
+    deltaFeeInt (some fee) = .ok (precision - fee.raw) := by
+  have hd : chkDec (precision - fee.raw) = some (precision - fee.raw) := by
+    apply chkDec_of_bound
+    · omega
+    · unfold precision at *; unfold pow2_315; omega
+  have hi : chkInt (precision - fee.raw) = some (precision - fee.raw) := by
+    apply chkInt_of_bound
+    · omega
+    · unfold precision at *; unfold pow2_256; omega
+  simp [deltaFeeInt, Dec.sub, Dec.one, hd, hi]
+
+/-- `GetInputPrice` under a validated fee: the denominator `inputReserve·10^18 + inputAmt·(1-fee)`
+    is positive whenever a reserve or an input exists, so the only possible abort is the 256-bit
+    overflow of the checked products -/
+theorem inputPrice_only_overflow (fee : Dec) (h0 : 0 < fee.raw) (h1 : fee.raw < precision)
+    (ia ir ort : Int) (hia : 0 ≤ ia) (hir : 0 ≤ ir) (hpos : 0 < ir ∨ 0 < ia) :
+    ∀ k, inputPrice ia ir ort (some fee) = .error (.panic k) → k = .overflow := by
+  intro k h
+  simp only [inputPrice, deltaFeeInt_ok fee h0 h1] at h
+  cases e1 : mulP ia (precision - fee.raw) with
+  | error e => rw [e1] at h; simp only at h; have := mulP_err e1; simp_all
+  | ok iaf =>
+    rw [e1] at h; simp only at h
+    cases e2 : mulP iaf ort with
+    | error e => rw [e2] at h; simp only at h; have := mulP_err e2; simp_all
+    | ok num =>
+      rw [e2] at h; simp only at h
+      cases e3 : mulP ir precision with
+      | error e => rw [e3] at h; simp only at h; have := mulP_err e3; simp_all
+      | ok t =>
+        rw [e3] at h; simp only at h
+        cases e4 : addP t iaf with
+        | error e => rw [e4] at h; simp only at h; have := addP_err e4; simp_all
+        | ok den =>
+          rw [e4] at h; simp only at h
+          have hden : den = 0 := quoP_err h
+          have h5 := mulP_val e1
+          have h6 := mulP_val e3
+          have h7 := addP_val e4
+          exfalso
+          have hd : 0 < precision - fee.raw := by omega
+          have hp : (0 : Int) < precision := by unfold precision; omega
+          rcases hpos with hp1 | hp2
+          · have : 0 < ir * precision := Int.mul_pos hp1 hp
+            have : 0 ≤ ia * (precision - fee.raw) := Int.mul_nonneg hia (by omega)
+            omega
+          · have : 0 < ia * (precision - fee.raw) := Int.mul_pos hp2 hd
+            have : 0 ≤ ir * precision := Int.mul_nonneg hir (by omega)
+            omega
+
+/-- `GetOutputPrice` under a validated fee: the denominator `(outputReserve-outputAmt)·(1-fee)` is
+    positive whenever less than the whole reserve is bought -/
+theorem outputPrice_only_overflow (fee : Dec) (h0 : 0 < fee.raw) (h1 : fee.raw < precision)
+    (oa ir ort : Int) (hlt : oa < ort) :
+    ∀ k, outputPrice oa ir ort (some fee) = .error (.panic k) → k = .overflow := by
+  intro k h
+  simp only [outputPrice, deltaFeeInt_ok fee h0 h1] at h
+  cases e1 : mulP ir oa with
+  | error e => rw [e1] at h; simp only at h; have := mulP_err e1; simp_all
+  | ok a =>
+    rw [e1] at h; simp only at h
+    cases e2 : mulP a precision with
+    | error e => rw [e2] at h; simp only at h; have := mulP_err e2; simp_all
+    | ok num =>
+      rw [e2] at h; simp only at h
+      cases e3 : subP ort oa with
+      | error e => rw [e3] at h; simp only at h; have := subP_err e3; simp_all
+      | ok d =>
+        rw [e3] at h; simp only at h
+        cases e4 : mulP d (precision - fee.raw) with
+        | error e => rw [e4] at h; simp only at h; have := mulP_err e4; simp_all
+        | ok den =>
+          rw [e4] at h; simp only at h
+          cases e5 : quoP num den with
+          | error e =>
+            exfalso
+            have hden : den = 0 := quoP_err e5
+            have h6 := subP_val e3
+            have h7 := mulP_val e4
+            have : 0 < d * (precision - fee.raw) := Int.mul_pos (by omega) (by omega)
+            omega
+          | ok q =>
+            rw [e5] at h; simp only at h
+            have := addP_err h; simp_all
+
+/-! ## htlc supply counters: under a validated asset the only abort is a 256-bit overflow -/
+
+theorem ovf_of {α : Type} {e : Err} {k : PanicKind} (h : (Except.error e : Res α) = .error (.panic k))
+    (he : e = .panic .overflow) : k = .overflow := by
+  subst he; injection h with h; injection h with h; exact h.symm
+
+theorem incrementIncoming_only_overflow {a : AssetParam} (ha : AssetOk a) (s : Supply) (amt : Int) :
+    ∀ k, incrementIncoming a s amt = .error (.panic k) → k = .overflow := by
+  intro k h
+  obtain ⟨lim, tbl, hlim, htbl, ht0, htl⟩ := ha.lim
+  have hl0 : ¬ (lim < 0) := by omega
+  have ht0' : ¬ (tbl < 0) := by omega
+  simp only [incrementIncoming, hlim, htbl, hl0, ht0', if_false] at h
+  repeat' split at h
+  all_goals first
+    | (cases h; done)
+    | (rename_i e he; exact ovf_of h (addP_err he))
+
+theorem incrementCurrent_only_overflow {a : AssetParam} (ha : AssetOk a) (s : Supply) (amt : Int) :
+    ∀ k, incrementCurrent a s amt = .error (.panic k) → k = .overflow := by
+  intro k h
+  obtain ⟨lim, tbl, hlim, htbl, ht0, htl⟩ := ha.lim
+  have hl0 : ¬ (lim < 0) := by omega
+  have ht0' : ¬ (tbl < 0) := by omega
+  simp only [incrementCurrent, hlim, htbl, hl0, ht0', if_false] at h
+  repeat' split at h
+  all_goals first
+    | (cases h; done)
+    | (rename_i e he; exact ovf_of h (addP_err he))
+
+theorem htltIncoming_only_overflow {a : AssetParam} (ha : AssetOk a) (s : Supply) (amt : Int) :
+    ∀ k, htltIncoming a s amt = .error (.panic k) → k = .overflow := by
+  intro k h
+  obtain ⟨mn, mx, hmn, hmx, _, _⟩ := ha.swap
+  simp only [htltIncoming, hmn, hmx] at h
+  split at h
+  · cases h
+  · split at h
+    · cases h
+    · exact incrementIncoming_only_overflow ha s amt k h
+
+theorem htltOutgoing_only_overflow {a : AssetParam} (ha : AssetOk a) (s : Supply) (amt : Int) (tl : Nat) :
+    ∀ k, htltOutgoing a s amt tl = .error (.panic k) → k = .overflow := by
+  intro k h
+  obtain ⟨mn, mx, hmn, hmx, _, _⟩ := ha.swap
+  obtain ⟨f, hf, _⟩ := ha.fee
+  simp only [htltOutgoing, hmn, hmx, hf] at h
+  repeat' split at h
+  all_goals first
+    | (cases h; done)
+    | (rename_i e he; exact ovf_of h (addP_err he))
+
+theorem htltClaimIncoming_only_overflow {a : AssetParam} (ha : AssetOk a) (s : Supply) (amt : Int) :
+    ∀ k, htltClaimIncoming a s amt = .error (.panic k) → k = .overflow := by
+  intro k h
+  unfold htltClaimIncoming at h
+  split at h
+  · cases h
+  · exact incrementCurrent_only_overflow ha _ amt k h
+
+
+/-- 2^128: the magnitude below which every parameter amount and counter keeps the handlers'
+    checked arithmetic far from the 256-bit limit -/
+def pow2_128 : Int := 340282366920938463463374607431768211456
+
+structure SupplySmall (s : Supply) : Prop where
+  inc : 0 ≤ s.incoming ∧ s.incoming < pow2_128
+  out : 0 ≤ s.outgoing ∧ s.outgoing < pow2_128
+  cur : 0 ≤ s.current ∧ s.current < pow2_128
+  tlc : 0 ≤ s.timeLimitedCurrent ∧ s.timeLimitedCurrent < pow2_128
+
+theorem addP_small {a b : Int} (ha : 0 ≤ a ∧ a < 2 * pow2_128) (hb : 0 ≤ b ∧ b < 2 * pow2_128) :
+    addP a b = .ok (a + b) := by
+  apply addP_ok
+  · omega
+  · unfold pow2_128 at *; unfold pow2_256; omega
+
+theorem incrementIncoming_noabort {a : AssetParam} (ha : AssetOk a) {s : Supply} (hs : SupplySmall s)
+    {amt : Int} (hamt : 0 ≤ amt ∧ amt < pow2_128) :
+    ∀ k, incrementIncoming a s amt ≠ .error (.panic k) := by
+  obtain ⟨lim, tbl, hlim, htbl, ht0, htl⟩ := ha.lim
+  have hl0 : ¬ (lim < 0) := by omega
+  have ht0' : ¬ (tbl < 0) := by omega
+  obtain ⟨⟨i0, i1⟩, ⟨o0, o1⟩, ⟨c0, c1⟩, ⟨t0, t1⟩⟩ := hs
+  have e1 := addP_small (a := s.current) (b := s.incoming) (by omega) (by omega)
+  have e2 : addP (s.current + s.incoming) amt = .ok (s.current + s.incoming + amt) :=
+    addP_small (by omega) (by omega)
+  have e3 := addP_small (a := s.timeLimitedCurrent) (b := s.incoming) (by omega) (by omega)
+  have e4 : addP (s.timeLimitedCurrent + s.incoming) amt = .ok (s.timeLimitedCurrent + s.incoming + amt) :=
+    addP_small (by omega) (by omega)
+  have e5 := addP_small (a := s.incoming) (b := amt) (by omega) (by omega)
+  intro k
+  simp only [incrementIncoming, hlim, htbl, hl0, ht0', if_false, e1, e2, e3, e4, e5]
+  repeat' split
+  all_goals simp
+
+theorem incrementCurrent_noabort {a : AssetParam} (ha : AssetOk a) {s : Supply} (hs : SupplySmall s)
+    {amt : Int} (hamt : 0 ≤ amt ∧ amt < pow2_128) :
+    ∀ k, incrementCurrent a s amt ≠ .error (.panic k) := by
+  obtain ⟨lim, tbl, hlim, htbl, ht0, htl⟩ := ha.lim
+  have hl0 : ¬ (lim < 0) := by omega
+  have ht0' : ¬ (tbl < 0) := by omega
+  obtain ⟨⟨i0, i1⟩, ⟨o0, o1⟩, ⟨c0, c1⟩, ⟨t0, t1⟩⟩ := hs
+  have e1 := addP_small (a := s.current) (b := amt) (by omega) (by omega)
+  have e2 := addP_small (a := s.timeLimitedCurrent) (b := amt) (by omega) (by omega)
+  intro k
+  simp only [incrementCurrent, hlim, htbl, hl0, ht0', if_false, e1, e2]
+  repeat' split
+  all_goals simp
+
+theorem htltIncoming_noabort {a : AssetParam} (ha : AssetOk a) {s : Supply} (hs : SupplySmall s)
+    {amt : Int} (hamt : 0 ≤ amt ∧ amt < pow2_128) :
+    ∀ k, htltIncoming a s amt ≠ .error (.panic k) := by
+  obtain ⟨mn, mx, hmn, hmx, _, _⟩ := ha.swap
+  intro k
+  simp only [htltIncoming, hmn, hmx]
+  split
+  · simp
+  · split
+    · simp
+    · exact incrementIncoming_noabort ha hs hamt k
+
+/-- outgoing swaps: `FixedFee.Add(MinSwapAmount)` is the one sum made of parameters alone -/
+theorem htltOutgoing_noabort {a : AssetParam} (ha : AssetOk a) {s : Supply} (hs : SupplySmall s)
+    {amt : Int} (hamt : 0 ≤ amt ∧ amt < pow2_128) (tl : Nat)
+    (hfee : ∀ f mn, a.fixedFee = some f → a.minSwapAmount = some mn → f < pow2_128 ∧ mn < pow2_128) :
+    ∀ k, htltOutgoing a s amt tl ≠ .error (.panic k) := by
+  obtain ⟨mn, mx, hmn, hmx, hmn0, _⟩ := ha.swap
+  obtain ⟨f, hf, hf0⟩ := ha.fee
+  obtain ⟨hfb, hmb⟩ := hfee f mn hf hmn
+  obtain ⟨⟨i0, i1⟩, ⟨o0, o1⟩, ⟨c0, c1⟩, ⟨t0, t1⟩⟩ := hs
+  have e1 := addP_small (a := f) (b := mn) (by omega) (by omega)
+  have e2 := addP_small (a := s.outgoing) (b := amt) (by omega) (by omega)
+  intro k
+  simp only [htltOutgoing, hmn, hmx, hf, e1, e2]
+  repeat' split
+  all_goals simp
+
+theorem htltClaimIncoming_noabort {a : AssetParam} (ha : AssetOk a) {s : Supply} (hs : SupplySmall s)
+    {amt : Int} (hamt : 0 ≤ amt ∧ amt < pow2_128) :
+    ∀ k, htltClaimIncoming a s amt ≠ .error (.panic k) := by
+  intro k
+  unfold htltClaimIncoming
+  split
+  · simp
+  · rename_i hge
+    have hs' : SupplySmall { s with incoming := s.incoming - amt } :=
+      ⟨⟨by simp only; omega, by simp only; have := hs.inc; omega⟩, hs.out, hs.cur, hs.tlc⟩
+    exact incrementCurrent_noabort ha hs' hamt k
+
+/-! ## service fragments -/
+
+theorem earnedFeeSplit_only_overflow (amount : Int) (r : Dec) (h0 : 0 ≤ amount)
+    (hr0 : 0 ≤ r.raw) (hr1 : r.raw ≤ precision) :
+    ∀ k, earnedFeeSplit amount (some r) = .error (.panic k) → k = .overflow := by
+  intro k h
+  simp only [earnedFeeSplit] at h
+  cases hm : (Dec.ofInt amount).mul r with
+  | none => simp [hm] at h; exact h.symm
+  | some t =>
+    cases ht : t.truncateInt with
+    | none => simp [hm, ht] at h; exact h.symm
+    | some tax =>
+      have hr := mulRateTrunc_range amount r t tax h0 hr0 hr1 hm ht
+      have h1 : ¬ (tax < 0) := by omega
+      simp only [hm, ht, h1, if_false] at h
+      split at h <;> cases h
+
+theorem earnedFeeSplit_noabort (amount : Int) (r : Dec) (h0 : 0 ≤ amount) (hb : amount < pow2_255)
+    (hr0 : 0 ≤ r.raw) (hr1 : r.raw ≤ precision) :
+    ∀ k, earnedFeeSplit amount (some r) ≠ .error (.panic k) := by
+  obtain ⟨t, ht, tax, htax, htax0, htax1⟩ := mulRateTrunc amount r h0 hb hr0 hr1
+  have h1 : ¬ (tax < 0) := by omega
+  have h2 : ¬ (amount - tax < 0) := by omega
+  intro k
+  simp [earnedFeeSplit, ht, htax, h1, h2]
+
+theorem slashSplit_only_overflow (denom : String) (deposit : Int) (r : Dec) (hd : validDenom denom = true)
+    (h0 : 0 ≤ deposit) (hr0 : 0 ≤ r.raw) (hr1 : r.raw ≤ precision) :
+    ∀ k, slashSplit denom deposit (some r) = .error (.panic k) → k = .overflow := by
+  intro k h
+  simp only [slashSplit] at h
+  cases hm : (Dec.ofInt deposit).mul r with
+  | none => simp [hm] at h; exact h.symm
+  | some t =>
+    cases ht : t.truncateInt with
+    | none => simp [hm, ht] at h; exact h.symm
+    | some tax =>
+      have hr := mulRateTrunc_range deposit r t tax h0 hr0 hr1 hm ht
+      have h1 : ¬ (tax < 0) := by omega
+      simp only [hm, ht, hd, Bool.not_true, Bool.false_eq_true, h1, if_false] at h
+      split at h <;> cases h
+
+theorem slashSplit_noabort (denom : String) (deposit : Int) (r : Dec) (hd : validDenom denom = true)
+    (h0 : 0 ≤ deposit) (hb : deposit < pow2_255) (hr0 : 0 ≤ r.raw) (hr1 : r.raw ≤ precision) :
+    ∀ k, slashSplit denom deposit (some r) ≠ .error (.panic k) := by
+  obtain ⟨t, ht, tax, htax, htax0, htax1⟩ := mulRateTrunc deposit r h0 hb hr0 hr1
+  have h1 : ¬ (tax < 0) := by omega
+  have h2 : ¬ (deposit - tax < 0) := by omega
+  intro k
+  simp [slashSplit, ht, htax, hd, h1, h2]
+
+theorem minDepositBase_only_overflow (p : ServiceParams) (price : Int) (hd : validDenom p.baseDenom = true)
+    (h0 : 0 ≤ price) (hm : 0 < p.minDepositMultiple) :
+    ∀ k, minDepositBase p price = .error (.panic k) → k = .overflow := by
+  intro k h
+  unfold minDepositBase at h
+  split at h
+  · cases h; rfl
+  · rename_i m hmul
+    have : m = price * p.minDepositMultiple := by
+      unfold I256.mul at hmul; exact chkInt_some hmul
+    have hm0 : 0 ≤ price * p.minDepositMultiple := Int.mul_nonneg h0 (by omega)
+    have h1 : ¬ (m < 0) := by omega
+    simp [hd, h1] at h
+
 end Irismod.Params
